@@ -204,6 +204,29 @@ pub fn run(run: &Run) {
             }
         });
     }
+    // medium-size mixed terms (every constructor triple on one path; 4-6 components of different
+    // constructors): the two extreme spacings only - no space anywhere, two spaces everywhere
+    for f in fmts::all() {
+        let mut vals: Vec<V> = u::chains(3).into_iter().map(V::term).collect();
+        vals.extend(u::mixed_wide(&f).into_iter().map(V::term));
+        run.count(&format!("medium_values_{}", f.name), vals.len() as u64);
+        vals.par_iter().for_each(|v| {
+            let toks = emit::value(&f, v);
+            let expect = v.canon();
+            let feats = c01::features(&f, v);
+            let none: Vec<&str> = vec![""; toks.len() + 1];
+            let two: Vec<&str> = vec!["  "; toks.len() + 1];
+            for s in [emit::join_with(&toks, &none), emit::join_with(&toks, &two)] {
+                distinct.add(&s);
+                for p in [Pipe::Enum, Pipe::LexFold] {
+                    run.eval(1);
+                    if let Err(msg) = check(&f, p, &s, &expect) {
+                        run.violation(&format!("[{}] {}", f.name, msg), json!({"op": "spacing", "format": f.name, "pipeline": format!("{p:?}"), "input": s, "value": v.to_json()}), &feats);
+                    }
+                }
+            }
+        });
+    }
     for (what, make, want) in macro_cases() {
         run.eval(1);
         let got = match quiet_catch(AssertUnwindSafe(|| make())) {
